@@ -197,11 +197,35 @@ func build(c *paceCase, deviate func(string, []byte) []byte) *built {
 		}
 		b.camPub = cv.ScalarBaseMult(sk)
 		cfg.CAMKey = &chipsim.CAKey{KeyID: pid, Curve: cv, Priv: sk}
-		secInfos := lds.SecurityInfos(
-			main,
-			lds.ChipAuthInfo(chipsim.CAOID("AES-128"), 1, pid),
-			lds.ChipAuthPubKeyInfo(lds.OidPkECDH, lds.SPKIStdDomain(c.ParamID, cv.Encode(b.camPub)), pid),
-		)
+		camKeyInfo := lds.ChipAuthPubKeyInfo(lds.OidPkECDH, lds.SPKIStdDomain(c.ParamID, cv.Encode(b.camPub)), pid)
+		// further Chip Authentication keys published in EF.CardSecurity (a chip may offer CAM for several
+		// parameter sets, or carry a generic CA key next to the mapping key)
+		extra := func(label string, id int) []byte {
+			ocv := ecc.ByPaceID(id)
+			k := ocv.ScalarFromBytes(detrand.New(append([]byte(label), c.ChipSeed...)).Bytes(ocv.ByteLen + 8))
+			if k.Sign() == 0 {
+				k = big.NewInt(11)
+			}
+			return ocv.Encode(ocv.ScalarBaseMult(k))
+		}
+		keyInfos := [][]byte{camKeyInfo}
+		switch c.Arrange % 4 {
+		case 1: // a key on another standardised curve listed first (its own key id)
+			keyInfos = [][]byte{lds.ChipAuthPubKeyInfo(lds.OidPkECDH, lds.SPKIStdDomain(otherID, extra("other-curve", otherID)), big.NewInt(int64(otherID))), camKeyInfo}
+		case 2: // a generic CA key on the SAME curve listed first, without and with another key id: the mapping key is the one whose key id equals the parameter id
+			keyInfos = [][]byte{lds.ChipAuthPubKeyInfo(lds.OidPkECDH, lds.SPKIStdDomain(c.ParamID, extra("same-curve-generic", c.ParamID)), big.NewInt(int64(c.ParamID+40))), camKeyInfo,
+				lds.ChipAuthPubKeyInfo(lds.OidPkECDH, lds.SPKIStdDomain(otherID, extra("other-curve", otherID)), nil)}
+		case 3: // the mapping key without a key id (only key on the curve), keys of other curves around it
+			camKeyInfo = lds.ChipAuthPubKeyInfo(lds.OidPkECDH, lds.SPKIStdDomain(c.ParamID, cv.Encode(b.camPub)), nil)
+			third := 16
+			if c.ParamID == 16 || otherID == 16 {
+				third = 15
+			}
+			keyInfos = [][]byte{lds.ChipAuthPubKeyInfo(lds.OidPkECDH, lds.SPKIStdDomain(third, extra("third-curve", third)), big.NewInt(int64(third))), camKeyInfo,
+				lds.ChipAuthPubKeyInfo(lds.OidPkECDH, lds.SPKIStdDomain(otherID, extra("other-curve", otherID)), big.NewInt(int64(otherID)))}
+		}
+		evid.Count(fmt.Sprintf("cam-cardsecurity-keys-%d", c.Arrange%4), 1)
+		secInfos := lds.SecurityInfos(append([][]byte{main, lds.ChipAuthInfo(chipsim.CAOID("AES-128"), 1, pid)}, keyInfos...)...)
 		b.cardSecurity = lds.DummyCardSecurity(secInfos)
 		cfg.MF[chipsim.FidCardSecurity] = b.cardSecurity
 	}
